@@ -858,6 +858,56 @@ fn dump_types<'tcx>(tcx: TyCtxt<'tcx>) -> (J, J, J, J) {
     (J::Arr(adts), J::Arr(impls), J::Arr(traits), J::Arr(consts))
 }
 
+/// rustc prints a definition by its shortest *visible* path over all loaded crates, so a std item is printed under the
+/// name of any crate that re-exports it closer to its root (`futures::Future` for `std::future::Future`) as soon as the
+/// compiled crate happens to load that crate. The rules name std items by their std path: list every std/core/alloc item
+/// that is currently printed under a foreign root together with its shortest path inside the std facade.
+fn std_aliases<'tcx>(tcx: TyCtxt<'tcx>) -> J {
+    use rustc_hir::def::Res;
+    use std::collections::{HashMap, VecDeque};
+    let mut facade: HashMap<DefId, String> = HashMap::new();
+    for want in ["std", "core", "alloc"] {
+        for cnum in tcx.crates(()).iter() {
+            if tcx.crate_name(*cnum).as_str() != want {
+                continue;
+            }
+            let mut q: VecDeque<(DefId, String, usize)> = VecDeque::new();
+            let mut seen_mod: HashSet<DefId> = HashSet::new();
+            q.push_back((cnum.as_def_id(), want.to_string(), 0));
+            while let Some((m, path, depth)) = q.pop_front() {
+                if depth > 6 || !seen_mod.insert(m) {
+                    continue;
+                }
+                for ch in tcx.module_children(m).iter() {
+                    if !ch.vis.is_public() {
+                        continue;
+                    }
+                    if let Res::Def(kind, did) = ch.res {
+                        let p = format!("{}::{}", path, ch.ident.name);
+                        match kind {
+                            DefKind::Mod => q.push_back((did, p, depth + 1)),
+                            DefKind::Trait | DefKind::Struct | DefKind::Enum | DefKind::Union | DefKind::Fn | DefKind::TyAlias => {
+                                facade.entry(did).or_insert(p);
+                            }
+                            _ => {}
+                        }
+                    }
+                }
+            }
+        }
+    }
+    let mut out: Vec<(String, String)> = Vec::new();
+    for (did, std_path) in facade.iter() {
+        let shown = path_s(tcx, *did);
+        let root = shown.split("::").next().unwrap_or("");
+        if root != "std" && root != "core" && root != "alloc" && !shown.starts_with('<') && shown != *std_path {
+            out.push((shown, std_path.clone()));
+        }
+    }
+    out.sort();
+    J::Arr(out.into_iter().map(|(a, b)| J::Arr(vec![J::s(a), J::s(b)])).collect())
+}
+
 fn dump<'tcx>(tcx: TyCtxt<'tcx>, dir: &str) {
     let crate_name = tcx.crate_name(LOCAL_CRATE).to_string();
     let ctypes: Vec<String> = tcx.crate_types().iter().map(|c| format!("{:?}", c)).collect();
@@ -929,7 +979,8 @@ fn dump<'tcx>(tcx: TyCtxt<'tcx>, dir: &str) {
         .set("impls", impls)
         .set("traits", traits)
         .set("consts", consts)
-        .set("coroutine_witnesses", J::Arr(wit));
+        .set("coroutine_witnesses", J::Arr(wit))
+        .set("std_aliases", std_aliases(tcx));
     let mut s = String::new();
     out.write(&mut s);
     let suffix = if is_test { ".test" } else { "" };
